@@ -1190,7 +1190,25 @@ pub struct WherePredicate { _p: core::marker::PhantomData<()> }
 
 } // verus!
 
+verus! {
+#[verifier::external_body]
+pub struct SynType { _p: core::marker::PhantomData<()> }
+impl SynType { pub uninterp spec fn ptoks(&self) -> Seq<Tok>; }
+impl ToTokens for SynType {
+    open spec fn toks(&self) -> Seq<Tok> { self.ptoks() }
+    #[verifier::external_body]
+    fn to_tokens(&self, tokens: &mut TokenStream) { unimplemented!() }
+    #[verifier::external_body]
+    fn to_token_stream(&self) -> (r: TokenStream) { unimplemented!() }
+}
+pub struct SynField { pub ty: SynType }
+}
+
 pub mod syn {
+    pub use super::Error;
+    pub use super::SynField as Field;
+    pub use super::SynType as Type;
+    pub use super::syn_parse::parse2;
     pub use super::Path;
     pub use super::Member;
     pub use super::Index;
@@ -1220,7 +1238,7 @@ impl<T> Vec<T> {
 
     #[verifier::external_body]
     pub fn iter<'a>(&'a self) -> (r: Iter<'a, T>)
-        ensures r@ == self@,
+        ensures r@ == self@, r.items() == refs(self@),
     { unimplemented!() }
 
     #[verifier::external_body]
@@ -1258,10 +1276,226 @@ impl<'a, T> View for Iter<'a, T> {
 }
 
 } // verus!
+
+// ---------------------------------------------------------------- iterator adapters (ASSUMED contracts on core::iter)
+verus! {
+
+// first element of `s` satisfying `q`
+pub open spec fn first<T>(s: Seq<T>, q: spec_fn(T) -> bool) -> Option<T>
+    decreases s.len(),
+{
+    if s.len() == 0 {
+        None
+    } else if q(s[0]) {
+        Some(s[0])
+    } else {
+        first(s.drop_first(), q)
+    }
+}
+
+// the sequence of references to the elements of `s` (what slice::Iter yields)
+pub open spec fn refs<'a, T>(s: Seq<T>) -> Seq<&'a T> { Seq::new(s.len(), |i: int| &s[i]) }
+
+// an executable predicate closure `f` decides the spec predicate `q`
+pub open spec fn decides<T, F: Fn(&T) -> bool>(f: F, q: spec_fn(T) -> bool) -> bool {
+    &&& forall|t: T| #[trigger] f.requires((&t,))
+    &&& forall|t: T| #[trigger] f.ensures((&t,), true) ==> q(t)
+    &&& forall|t: T| #[trigger] f.ensures((&t,), false) ==> !q(t)
+}
+
+pub trait Iterator: Sized {
+    type Item;
+
+    // the elements still to be yielded
+    spec fn items(&self) -> Seq<Self::Item>;
+
+    // core::iter::Iterator::find: the first element on which the predicate returns true
+    fn find<P: Fn(&Self::Item) -> bool>(&mut self, predicate: P) -> (r: Option<Self::Item>)
+        requires forall|t: Self::Item| #[trigger] predicate.requires((&t,)),
+        ensures forall|q: spec_fn(Self::Item) -> bool| decides(predicate, q) ==> r == #[trigger] first(old(self).items(), q);
+
+    // core::iter::Iterator::filter: the subsequence on which the predicate returns true
+    fn filter<P: Fn(&Self::Item) -> bool>(self, predicate: P) -> (r: Filter<Self::Item, P>)
+        requires forall|t: Self::Item| #[trigger] predicate.requires((&t,)),
+        ensures forall|q: spec_fn(Self::Item) -> bool| decides(predicate, q) ==> r.fitems() == #[trigger] self.items().filter(q);
+
+    // core::iter::Iterator::map
+    fn map<B, F: Fn(Self::Item) -> B>(self, f: F) -> (r: Map<B, F>)
+        requires forall|t: Self::Item| #[trigger] f.requires((t,)),
+        ensures forall|g: spec_fn(Self::Item) -> B| (forall|t: Self::Item, b: B| #[trigger] f.ensures((t,), b) ==> b == g(t))
+            ==> r.mitems() == #[trigger] self.items().map_values(g);
+
+    // core::iter::Iterator::any
+    fn any<P: Fn(Self::Item) -> bool>(&mut self, predicate: P) -> (r: bool)
+        requires forall|t: Self::Item| #[trigger] predicate.requires((t,)),
+        ensures forall|q: spec_fn(Self::Item) -> bool|
+            ((forall|t: Self::Item| #[trigger] predicate.ensures((t,), true) ==> q(t)) && (forall|t: Self::Item| #[trigger] predicate.ensures((t,), false) ==> !q(t)))
+            ==> r == (#[trigger] first(old(self).items(), q) is Some);
+}
+
+impl<'a, T> Iterator for Iter<'a, T> {
+    type Item = &'a T;
+    open spec fn items(&self) -> Seq<&'a T> { refs(self@) }
+    #[verifier::external_body]
+    fn find<P: Fn(&Self::Item) -> bool>(&mut self, predicate: P) -> (r: Option<Self::Item>) { unimplemented!() }
+    #[verifier::external_body]
+    fn filter<P: Fn(&Self::Item) -> bool>(self, predicate: P) -> (r: Filter<Self::Item, P>) { unimplemented!() }
+    #[verifier::external_body]
+    fn any<P: Fn(Self::Item) -> bool>(&mut self, predicate: P) -> (r: bool) { unimplemented!() }
+    #[verifier::external_body]
+    fn map<B, F: Fn(Self::Item) -> B>(self, f: F) -> (r: Map<B, F>) { unimplemented!() }
+}
+
+#[verifier::external_body]
+#[verifier::reject_recursive_types(T)]
+#[verifier::reject_recursive_types(P)]
+pub struct Filter<T, P> { _p: core::marker::PhantomData<(T, P)> }
+
+impl<T, P> Filter<T, P> {
+    pub uninterp spec fn fitems(&self) -> Seq<T>;
+}
+
+impl<T, P0> Iterator for Filter<T, P0> {
+    type Item = T;
+    open spec fn items(&self) -> Seq<T> { self.fitems() }
+    #[verifier::external_body]
+    fn find<P: Fn(&Self::Item) -> bool>(&mut self, predicate: P) -> (r: Option<Self::Item>) { unimplemented!() }
+    #[verifier::external_body]
+    fn filter<P: Fn(&Self::Item) -> bool>(self, predicate: P) -> (r: Filter<Self::Item, P>) { unimplemented!() }
+    #[verifier::external_body]
+    fn any<P: Fn(Self::Item) -> bool>(&mut self, predicate: P) -> (r: bool) { unimplemented!() }
+    #[verifier::external_body]
+    fn map<B, F: Fn(Self::Item) -> B>(self, f: F) -> (r: Map<B, F>) { unimplemented!() }
+}
+
+
+#[verifier::external_body]
+#[verifier::reject_recursive_types(T)]
+#[verifier::reject_recursive_types(F)]
+pub struct Map<T, F> { _p: core::marker::PhantomData<(T, F)> }
+
+impl<T, F> Map<T, F> {
+    pub uninterp spec fn mitems(&self) -> Seq<T>;
+}
+
+impl<T, F0> Iterator for Map<T, F0> {
+    type Item = T;
+    open spec fn items(&self) -> Seq<T> { self.mitems() }
+    #[verifier::external_body]
+    fn find<P: Fn(&Self::Item) -> bool>(&mut self, predicate: P) -> (r: Option<Self::Item>) { unimplemented!() }
+    #[verifier::external_body]
+    fn filter<P: Fn(&Self::Item) -> bool>(self, predicate: P) -> (r: Filter<Self::Item, P>) { unimplemented!() }
+    #[verifier::external_body]
+    fn any<P: Fn(Self::Item) -> bool>(&mut self, predicate: P) -> (r: bool) { unimplemented!() }
+    #[verifier::external_body]
+    fn map<B, F: Fn(Self::Item) -> B>(self, f: F) -> (r: Map<B, F>) { unimplemented!() }
+}
+
+} // verus!
+// ---- Option adapters: assumed contracts on core::option (trusted base) ----
+verus! {
+
+pub assume_specification<T, F> [core::option::Option::<T>::or_else] (o: Option<T>, f: F) -> (r: Option<T>)
+    where F: FnOnce() -> Option<T> + core::marker::Destruct, T: core::marker::Destruct,
+    requires o is None ==> f.requires(()),
+    ensures
+        o is Some ==> r == o,
+        o is None ==> f.ensures((), r);
+
+} // verus!
+
+verus! {
+pub assume_specification<T, U, F> [core::option::Option::<T>::map_or] (o: Option<T>, default: U, f: F) -> (r: U)
+    where F: FnOnce(T) -> U + core::marker::Destruct, T: core::marker::Destruct, U: core::marker::Destruct,
+    requires o is Some ==> f.requires((o->0,)),
+    ensures
+        o is None ==> r == default,
+        o is Some ==> f.ensures((o->0,), r);
+
+pub assume_specification<T, F> [core::option::Option::<T>::is_some_and] (o: Option<T>, f: F) -> (r: bool)
+    where F: FnOnce(T) -> bool + core::marker::Destruct, T: core::marker::Destruct,
+    requires o is Some ==> f.requires((o->0,)),
+    ensures
+        o is None ==> !r,
+        o is Some ==> f.ensures((o->0,), r);
+} // verus!
+// ---- strings, errors, parsing: assumed contracts (trusted base) ----
+pub mod str_axioms {
+    use vstd::prelude::*;
+    verus! {
+    // pattern matching on &str uses str equality; String deref uses views.  One axiom relates the two.
+    pub broadcast axiom fn axiom_str_eq_is_view_eq(a: &str, b: &str)
+        ensures (a == b) == (#[trigger] a@ == #[trigger] b@);
+    }
+}
+
+verus! {
+
+#[verifier::external_body]
+pub struct Error { _p: core::marker::PhantomData<()> }
+
+pub type Result<T> = core::result::Result<T, Error>;
+
+impl Ident {
+    #[verifier::external_body]
+    pub fn to_string(&self) -> (r: String)
+        ensures r@ == self.name(),
+    { unimplemented!() }
+
+    #[verifier::external_body]
+    pub fn span(&self) -> (r: Span) { unimplemented!() }
+}
+
+// Display of a token stream; a single identifier prints as its name (proc_macro2)
+pub uninterp spec fn toks_to_string(t: Seq<Tok>) -> Seq<char>;
+
+impl TokenStream {
+    #[verifier::external_body]
+    pub fn to_string(&self) -> (r: String)
+        ensures
+            r@ == toks_to_string(self@),
+            forall|n: Seq<char>| self@ == seq![Tok::Id(n)] ==> r@ == n,
+    { unimplemented!() }
+}
+
+pub assume_specification [<std::string::String as std::convert::AsRef<str>>::as_ref] (s: &std::string::String) -> (r: &str)
+    ensures r@ == s@;
+
+// the result of parsing a token stream is a function of the tokens (whatever syn does, it does it deterministically)
+pub uninterp spec fn spec_parse2<T>(t: Seq<Tok>) -> Result<T>;
+
+} // verus!
+
+pub mod syn_parse {
+    use super::*;
+    verus! {
+    #[verifier::external_body]
+    pub fn parse2<T>(tokens: TokenStream) -> (r: Result<T>)
+        ensures r == spec_parse2::<T>(tokens@),
+    { unimplemented!() }
+    }
+}
+
+verus! {
+}
+
+verus! {
+impl Error {
+    #[verifier::external_body]
+    pub fn new(span: Span, message: &str) -> (r: Error) { unimplemented!() }
+}
+pub trait Spanned {
+    fn span(&self) -> Span;
+}
+impl Spanned for Option<TokenStream> {
+    #[verifier::external_body]
+    fn span(&self) -> (r: Span) { unimplemented!() }
+}
+}
 verus! {
 // real type definitions of o2o-impl, copied byte-exact (derives dropped / replaced as logged)
 
- struct TypePath {
+pub struct TypePath {
     pub span: Span,
     pub path: TokenStream,
     pub path_str: String,
@@ -1269,7 +1503,7 @@ verus! {
     pub nameless_tuple: bool,
 }
 #[derive(Clone, Copy, PartialEq, Eq, Structural)]
- enum Kind {
+pub enum Kind {
     OwnedInto,
     RefInto,
     FromOwned,
@@ -1288,7 +1522,7 @@ type ApplicableTo = [bool; 6];
     pub error_instrs: Vec<DataTypeInstruction>,
 }
 type MemberRepeatFor = [bool; 5];
-enum MemberAttrType {
+pub enum MemberAttrType {
     Attr,
     Child,
     Parent,
@@ -1324,7 +1558,7 @@ enum MemberAttrType {
     Unspecified = 3,
 }
 type TraitRepeatFor = [bool; 4];
-enum TraitAttrType {
+pub enum TraitAttrType {
     Vars,
     Update,
     QuickReturn,
@@ -1580,7 +1814,7 @@ spec fn k_is_ref(k: Kind) -> bool { k is FromRef || k is RefInto || k is RefInto
 spec fn k_is_into_existing(k: Kind) -> bool { k is OwnedIntoExisting || k is RefIntoExisting }
 spec fn k_is_into(k: Kind) -> bool { k is OwnedInto || k is RefInto }
 
-spec fn kidx(k: Kind) -> int {
+pub open spec fn kidx(k: Kind) -> int {
     match k {
         Kind::OwnedInto => 0,
         Kind::RefInto => 1,
@@ -1592,10 +1826,10 @@ spec fn kidx(k: Kind) -> int {
 }
 
 // applicability bit of an instruction for a conversion kind
-spec fn appl(a: [bool; 6], k: Kind) -> bool { a[kidx(k)] }
+pub open spec fn appl(a: [bool; 6], k: Kind) -> bool { a[kidx(k)] }
 
 // counterpart-type equality is equality of the printed path (TypePath::eq)
-spec fn ty_eq(a: TypePath, b: TypePath) -> bool { a.path_str@ == b.path_str@ }
+pub open spec fn ty_eq(a: TypePath, b: TypePath) -> bool { a.path_str@ == b.path_str@ }
 
 spec fn dedicated_to(c: Option<TypePath>, ty: TypePath) -> bool {
     c is Some && ty_eq(c->0, ty)
@@ -1627,6 +1861,46 @@ uninterp spec fn walk(action: Toks, at: Toks, tilde: Toks) -> Toks;
 spec fn spec_action(action: Toks, postfix: Toks, ctx: ImplContext) -> Toks {
     walk(action, at_toks(ctx.kind), tilde_toks(ctx, postfix))
 }
+
+// ---- abstract views of (Struct, ImplContext): what the unreached block builders may depend on ----
+pub ghost struct AView {
+    pub attrs: Seq<TraitAttr>,
+    pub ghosts_attrs: Seq<GhostsAttr>,
+    pub where_attrs: Seq<WhereAttr>,
+    pub child_parents_attrs: Seq<ChildParentsAttr>,
+}
+pub ghost struct SView {
+    pub attrs: AView,
+    pub ident: Ident,
+    pub fields: Seq<Field>,
+    pub named_fields: bool,
+    pub unit: bool,
+}
+pub ghost struct CView {
+    pub input: Option<SView>,      // None: the input is an enum
+    pub impl_type: ImplType,
+    pub sa: TraitAttrCore,
+    pub kind: Kind,
+    pub dst: Toks,
+    pub src: Toks,
+    pub has_post_init: bool,
+    pub fallible: bool,
+}
+spec fn aview(a: DataTypeAttrs) -> AView {
+    AView { attrs: a.attrs@, ghosts_attrs: a.ghosts_attrs@, where_attrs: a.where_attrs@, child_parents_attrs: a.child_parents_attrs@ }
+}
+spec fn sview<'a>(s: Struct<'a>) -> SView {
+    SView { attrs: aview(s.attrs), ident: *s.ident, fields: s.fields@, named_fields: s.named_fields, unit: s.unit }
+}
+spec fn cview<'a>(c: ImplContext<'a>) -> CView {
+    CView {
+        input: match *c.input { DataType::Struct(s) => Some(sview(*s)), DataType::Enum(_) => None },
+        impl_type: c.impl_type, sa: *c.struct_attr, kind: c.kind, dst: c.dst_ty@, src: c.src_ty@, has_post_init: c.has_post_init, fallible: c.fallible,
+    }
+}
+// ASSUMED (unreached callees), as functions of the views:
+uninterp spec fn spec_struct_init(input: SView, ctx: CView) -> Toks;          // struct_init_block
+uninterp spec fn spec_variant_destruct(input: SView, ctx: CView) -> Toks;     // variant_destruct_block
 
 // =====================================================================================================
 // U4 — trait skeletons, body wrappers, quote_action, render_parent
@@ -1845,7 +2119,9 @@ fn quote_try_from_trait(input: &DataType, ctx: &ImplContext, pre_init: Option<To
 {
 
     let QuoteTraitParams { attr, impl_attr, inner_attr, dst, src, these_gens, those_gens, impl_gens, where_clause, r } = get_quote_trait_params(input, ctx);
-    let err_ty = &ctx.struct_attr.err_ty.as_ref().unwrap().path;
+    let err_ty = ctx.struct_attr.err_ty.as_ref().unwrap();
+    let (err_path, err_gens) = (&err_ty.path, &err_ty.generics);
+    let err_ty = quote!(#err_path #err_gens);
     quote! {
         #impl_attr
         impl #impl_gens ::core::convert::TryFrom<#r #src #those_gens> for #dst #these_gens #where_clause {
@@ -1902,7 +2178,9 @@ fn quote_try_into_trait(input: &DataType, ctx: &ImplContext, pre_init: Option<To
 {
 
     let QuoteTraitParams { attr, impl_attr, inner_attr, dst, src, these_gens, those_gens, impl_gens, where_clause, r } = get_quote_trait_params(input, ctx);
-    let err_ty = &ctx.struct_attr.err_ty.as_ref().unwrap().path;
+    let err_ty = ctx.struct_attr.err_ty.as_ref().unwrap();
+    let (err_path, err_gens) = (&err_ty.path, &err_ty.generics);
+    let err_ty = quote!(#err_path #err_gens);
 
     let body = match post_init {
         Some(post_init) => quote! {
@@ -1960,7 +2238,9 @@ fn quote_try_into_existing_trait(input: &DataType, ctx: &ImplContext, pre_init: 
 {
 
     let QuoteTraitParams { attr, impl_attr, inner_attr, dst, src, these_gens, those_gens, impl_gens, where_clause, r } = get_quote_trait_params(input, ctx);
-    let err_ty = &ctx.struct_attr.err_ty.as_ref().unwrap().path;
+    let err_ty = ctx.struct_attr.err_ty.as_ref().unwrap();
+    let (err_path, err_gens) = (&err_ty.path, &err_ty.generics);
+    let err_ty = quote!(#err_path #err_gens);
     quote! {
         #impl_attr
         impl #impl_gens o2o::traits::TryIntoExisting<#dst #those_gens> for #r #src #these_gens #where_clause {
@@ -2038,12 +2318,11 @@ fn render_parent(f: &Field, ctx: &ImplContext) -> (r: TokenStream)
 
 // ---------------------------------------------------------------- body wrappers (C07 C08 C17)
 // ASSUMED (unreached callee): the struct / enum init block
-uninterp spec fn spec_struct_init<'a>(input: Struct<'a>, ctx: ImplContext<'a>) -> Toks;
 uninterp spec fn spec_enum_init<'a>(input: Enum<'a>, ctx: ImplContext<'a>) -> Toks;
 
 #[verifier::external_body]
 fn struct_init_block<'a>(input: &'a Struct, ctx: &ImplContext) -> (r: TokenStream)
-    ensures r@ == spec_struct_init(*input, *ctx),
+    ensures r@ == spec_struct_init(sview(*input), cview(*ctx)),
 { unimplemented!() }
 
 #[verifier::external_body]
@@ -2052,7 +2331,7 @@ fn enum_init_block(input: &Enum, ctx: &ImplContext) -> (r: TokenStream)
 { unimplemented!() }
 
 spec fn spec_struct_main<'a>(input: Struct<'a>, ctx: ImplContext<'a>) -> Toks {
-    let init = spec_struct_init(input, ctx);
+    let init = spec_struct_init(sview(input), cview(ctx));
     if k_is_from(ctx.kind) {
         ctx.dst_ty@ + init
     } else if k_is_into(ctx.kind) {
